@@ -133,11 +133,17 @@ def extract(repo):
     except OSError:
         pp = ""
     stops = []
-    mg = re.search(r'bool is_function_call = false;\s*while \(depth > 0 && !parser_->isAtEnd\(\)\) \{\s*'
+    bound = 0
+    # optional token bound of the look-ahead (fix 98a0163): `int scanned_tokens = 0; while (...) { if (++scanned_tokens > N) { break; }`
+    mg = re.search(r'bool is_function_call = false;\s*(?:int (\w+) = 0;\s*)?while \(depth > 0 && !parser_->isAtEnd\(\)\) \{\s*'
+                   r'(?:if \(\+\+(\w+) > (\d+)\)\s*\{\s*break;\s*\}\s*)?'
                    r'if \(((?:[^{}])*?)\)\s*\{\s*break;\s*\}', pp)
     if mg:
-        stops = sorted(re.findall(r'TokenType::(TOK_\w+)', mg.group(1)))
+        stops = sorted(re.findall(r'TokenType::(TOK_\w+)', mg.group(4)))
+        if mg.group(3) and mg.group(1) == mg.group(2):
+            bound = int(mg.group(3))
     out["generic_stops"] = stops
+    out["generic_bound"] = bound      # 0 = no bound in the code
     out["cast_guard"] = bool(re.search(r'if \(!may_be_type\)\s*\{\s*throw', pp)) and \
         bool(re.search(r'may_be_type\s*=\s*parser_->typedef_map_\.count\(id\)', pp))
     out["recognised"] = True
@@ -176,6 +182,8 @@ def render(info):
         "(* parsePrimary: tokens at which the generic-call look-ahead gives up; is `( identifier` tried as a type",
         "   only when the identifier names a type *)",
         'Definition ladder_generic_stops : list string := [%s].' % "; ".join('"%s"' % x for x in info.get("generic_stops", [])),
+        '(* tokens the look-ahead may examine (0 = unbounded) *)',
+        'Definition ladder_generic_bound : nat := %d.' % info.get("generic_bound", 0),
         'Definition ladder_cast_guard : bool := %s.' % ("true" if info.get("cast_guard") else "false"),
         "",
     ]
